@@ -7,7 +7,7 @@
    module resolution and everything else are covered by the correspondence and the end-to-end differential only.
    Property theorems only; each is closed by [exact] and followed by Print Assumptions. *)
 From Coq Require Import List NArith Arith Bool.
-From PV Require Import Conv.Model Conv.Proofs Conv.Decl Conv.DeclProofs.
+From PV Require Import Conv.Model Conv.Proofs Conv.Decl Conv.DeclProofs Conv.Bound Conv.BoundProofs.
 Import ListNotations.
 Open Scope N_scope.
 
@@ -168,6 +168,131 @@ Proof.
   - reflexivity.
 Qed.
 
+
+
+(* ============================================================================================== *)
+(* BOUNDED AND CONSTRAINED TYPEVARS (model: Conv/Bound.v) *)
+
+(* The theorems above take the class table to be a template LENGTH per class: a bare reference to a generic class is
+   instantiated with Any per type parameter, which is what convert.py does exactly when no TypeVar of the template
+   has a bound or constraints.  Here the table gives, per class, the UPPER VALUE of every TypeVar of its template
+   (pytd.TypeParameter.upper_value: Union[constraints] | bound | Any), and the conversion of a bare class reference
+   is convert.py's  GenericType(cls, tuple(t.type_param.upper_value for t in cls.template)).
+
+   For every class table (type and tuple unary and unbounded; upper values `clean`), every fuel and every `clean`
+   type expression t (bare references to classes with bounded / constrained TypeVars occur where convert.py creates
+   instances: at the top, as type arguments, tuple elements, union members — not below type[..] / Callable[..]),
+   B's stub gives the imported name the type t with every such bare reference replaced by the class parameterised
+   by each parameter's upper value, recursively ([expand_top]), provided that type is in the emitted dialect. *)
+Theorem bounded_conv_out_id : forall (upper : cid -> list ty) (fuel : nat) (t : ty),
+  upper type_id = [TAny] -> upper tuple_id = [TAny] ->
+  (forall c, forallb (clean_top upper) (upper c) = true) ->
+  clean_top upper t = true ->
+  wf_top (arity_of upper) (expand_top upper fuel t) = true ->
+  nf (def_ty (downstream_b upper fuel t)) = nf (expand_top upper fuel t).
+Proof. intros upper fuel t H1 H2 H3. exact (bounded_conv_out_id_lemma upper H1 H2 H3 fuel t). Qed.
+Print Assumptions bounded_conv_out_id.
+
+(* the same for a finite table, whose hypotheses are decidable ([table_ok]; the harness evaluates it per table) *)
+Theorem bounded_conv_out_id_table : forall (base : cid -> nat) (l : list (cid * list ty)) (fuel : nat) (t : ty),
+  table_ok base l = true ->
+  clean_top (table_of base l) t = true ->
+  wf_top (arity_of (table_of base l)) (expand_top (table_of base l) fuel t) = true ->
+  canon (def_ty (downstream_b (table_of base l) fuel t)) = canon (expand_top (table_of base l) fuel t).
+Proof. intros base l fuel t H1 H2 H3. unfold canon. rewrite (bounded_table_lemma base l fuel t H1 H2 H3). reflexivity. Qed.
+Print Assumptions bounded_conv_out_id_table.
+
+(* "a bare reference to a generic class reads back as the class parameterised by each parameter's upper value":
+   `x: Box` upstream, T bound to Base (or constrained to int, str), is `y: Box[Base]` (`Box[Union[int, str]]`)
+   downstream — for upper values that mention no further class with bounded TypeVars *)
+Theorem bare_generic_reads_back : forall (upper : cid -> list ty) (fuel : nat) (c : cid),
+  upper type_id = [TAny] -> upper tuple_id = [TAny] ->
+  (forall c, forallb (clean_top upper) (upper c) = true) ->
+  unbounded upper c = false ->
+  forallb (unb upper) (upper c) = true ->
+  wf_top (arity_of upper) (TGeneric c (upper c)) = true ->
+  nf (def_ty (downstream_b upper (S fuel) (TClass c))) = nf (TGeneric c (upper c)).
+Proof. intros upper fuel c H1 H2 H3. exact (bare_generic_upper_lemma upper H1 H2 H3 fuel c). Qed.
+Print Assumptions bare_generic_reads_back.
+
+(* conservativity: on a table without bounds or constraints the bounded model IS Conv/Model.v's conversion, so
+   conv_out_id .. transports_agree above are the special case *)
+Theorem unbounded_table_is_model : forall (upper : cid -> list ty) (fuel : nat) (t : ty),
+  upper type_id = [TAny] ->
+  (forall c, unbounded upper c = true) ->
+  downstream_b upper fuel t = downstream (arity_of upper) t.
+Proof. intros upper fuel t. exact (unbounded_table_is_model_lemma upper fuel t). Qed.
+Print Assumptions unbounded_table_is_model.
+
+(* the short cut taken by Bound.bare_b for a template without bounds: converting GenericType(c, (Any, ..)) gives
+   Model.bare_inst, whatever the conversion of bare references below it *)
+Theorem generic_any_is_bare_inst : forall (arity : cid -> nat) (bare : cid -> aval) (c : cid),
+  arity type_id = 1%nat -> arity c <> 0%nat ->
+  inst_g arity bare (TGeneric c (repeat TAny (arity c))) = bare_inst arity c.
+Proof. intros arity bare c. exact (generic_any_is_bare_inst_lemma arity bare c). Qed.
+Print Assumptions generic_any_is_bare_inst.
+
+(* pytd.TypeParameter: the upper value; constraints and bound survive the pyi text `T = TypeVar("T", c1, c2)` /
+   `TypeVar("T", bound=b)` (the type expressions inside are C05's) *)
+Theorem typevar_upper_value : forall d : tvdecl,
+  (tv_constraints d <> [] /\ upper_value d = TUnion (tv_constraints d)) \/
+  (tv_constraints d = [] /\ exists b, tv_bound d = Some b /\ upper_value d = b) \/
+  (tv_constraints d = [] /\ tv_bound d = None /\ upper_value d = TAny).
+Proof. exact upper_value_cases. Qed.
+Print Assumptions typevar_upper_value.
+
+Theorem typevar_print_parse : forall d : tvdecl,
+  parse_tv (print_tv d) = d /\ upper_value (parse_tv (print_tv d)) = upper_value d.
+Proof. intros d. split; [exact (tv_print_parse_lemma d) | exact (upper_value_print_parse_lemma d)]. Qed.
+Print Assumptions typevar_print_parse.
+
+(* ---- non-vacuity: class C0; T = TypeVar(bound=C0); S = TypeVar(int, str); R = TypeVar(bound=C4);
+        Q = TypeVar(bound=list[C0]);  C4(Generic[T])  C5(Generic[S, U])  C6(Generic[R])  C7(Generic[Q, T]) ---- *)
+Definition ex_bounded_tbl : list (cid * list ty) :=
+  [ (36, [TClass 32]); (37, [TUnion [TClass 10; TClass 11]; TAny]); (38, [TClass 36]);
+    (39, [TGeneric 6 [TClass 32]; TClass 32]) ].
+Definition ex_upper := table_of builtin_arity ex_bounded_tbl.
+Example ex_bounded_tbl_ok : table_ok builtin_arity ex_bounded_tbl = true.
+Proof. reflexivity. Qed.
+(* dict[str, Union[C4, None]] | tuple[C6, C5] | C7 *)
+Definition ex_bounded_ty : ty :=
+  TUnion [TGeneric 7 [TClass 11; TUnion [TClass 36; TClass 2]]; TTuple [TClass 38; TClass 37]; TClass 39].
+Example ex_bounded_hyps :
+  clean_top ex_upper ex_bounded_ty = true /\
+  wf_top (arity_of ex_upper) (expand_top ex_upper 2 ex_bounded_ty) = true /\
+  expand_top ex_upper 2 ex_bounded_ty =
+    TUnion [TGeneric 7 [TClass 11; TUnion [TGeneric 36 [TClass 32]; TClass 2]];
+            TTuple [TGeneric 38 [TGeneric 36 [TClass 32]]; TGeneric 37 [TUnion [TClass 10; TClass 11]; TAny]];
+            TGeneric 39 [TGeneric 6 [TClass 32]; TClass 32]] /\
+  def_ty (downstream_b ex_upper 2 ex_bounded_ty) = expand_top ex_upper 2 ex_bounded_ty.
+Proof. vm_compute. repeat split; reflexivity. Qed.
+Example ex_bare_box :                  (* x: C4  ->  y: C4[C0];   x: C5 -> y: C5[Union[int, str], Any] *)
+  downstream_b ex_upper 1 (TClass 36) = DConst (TGeneric 36 [TClass 32]) /\
+  downstream_b ex_upper 1 (TClass 37) = DConst (TGeneric 37 [TUnion [TClass 10; TClass 11]; TAny]) /\
+  unbounded ex_upper 36 = false /\ forallb (unb ex_upper) (ex_upper 36) = true /\
+  wf_top (arity_of ex_upper) (TGeneric 36 (ex_upper 36)) = true.
+Proof. vm_compute. repeat split; reflexivity. Qed.
+Example ex_bounded_class_level :       (* class-level positions (outside `clean`; correspondence only) *)
+  downstream_b ex_upper 1 (TCallable [TClass 36] (TClass 10)) = DConst (TCallable [TGeneric 36 [TClass 32]] (TClass 10)) /\
+  downstream_b ex_upper 1 (TGeneric type_id [TClass 36]) = DConst (TGeneric type_id [TGeneric 36 [TAny]]).
+Proof. vm_compute. split; reflexivity. Qed.
+Example ex_fuel_exhausted_excluded :   (* C6 -> C4 -> C0 needs two hops: with fuel 1 the expansion is not in the dialect *)
+  wf_top (arity_of ex_upper) (expand_top ex_upper 1 (TClass 38)) = false /\
+  wf_top (arity_of ex_upper) (expand_top ex_upper 2 (TClass 38)) = true.
+Proof. vm_compute. split; reflexivity. Qed.
+
+(* With bounds in the table the SYNTACTIC identity of conv_out_id is refuted by the faithful model (B's stub spells
+   the upper values out: `x: C4` upstream is `y: C4[C0]` downstream; A's own analysis gives the same type to the
+   value, so this is not a defect) — and the seeded defect "an omitted type parameter implies Any"
+   ([downstream_anyfill], Conv/Model.v's conversion on the same table) is told apart by the theorem's conclusion. *)
+Theorem conv_out_id_bounded_refuted : exists (l : list (cid * list ty)) (t : ty),
+  table_ok builtin_arity l = true /\ clean_top (table_of builtin_arity l) t = true /\
+  wf_top (arity_of (table_of builtin_arity l)) t = true /\
+  canon (def_ty (downstream_b (table_of builtin_arity l) 1 t)) <> canon t /\
+  canon (def_ty (downstream_anyfill (table_of builtin_arity l) t)) <>
+    canon (def_ty (downstream_b (table_of builtin_arity l) 1 t)).
+Proof. exact bounded_refuted_lemma. Qed.
+Print Assumptions conv_out_id_bounded_refuted.
 
 (* ============================================================================================== *)
 (* DECLARATIONS (model: Conv/Decl.v) *)
